@@ -59,8 +59,13 @@ pub fn judge_c07(c: &Case, obs: &Obs) -> Vec<(String, String)> {
                 if obs.real_after.pc != want {
                     v.push(("length".to_string(), format!("PC advanced to {:06x}, encoded length {} gives {:06x}", obs.real_after.pc, i.len, want)));
                 }
-            } else if obs.model_after.pc == c.pc.wrapping_add(i.len as u32) && obs.real_after.pc != obs.model_after.pc && matches!(i.mn, Mn::Bcc) && i.k == 1 {
-                v.push(("length".to_string(), format!("BRN advanced PC to {:06x}, encoded length {}", obs.real_after.pc, i.len)));
+            } else if matches!(i.mn, Mn::Bcc) && obs.model_after.pc == c.pc.wrapping_add(i.len as u32) && obs.real_after.pc != obs.model_after.pc {
+                // a conditional branch that is not taken must still consume its whole encoding
+                // (the taken/not-taken decision and the target are C05's business)
+                let untaken_by_real = obs.real_after.pc.wrapping_sub(c.pc) <= 4;
+                if untaken_by_real {
+                    v.push(("length".to_string(), format!("untaken branch advanced PC to {:06x}, encoded length {} gives {:06x}", obs.real_after.pc, i.len, obs.model_after.pc)));
+                }
             }
             // footprint containment
             let rw = reg_writes(i);
